@@ -7,7 +7,10 @@
     the literals the source adds to `evals.ode` (6, 11, +1, +3, 3, 4, +1) are the numbers of calls the translated
     regions make.
   * `hSolve_counted`, `rk23Solve_inv`, `rk4Solve_inv` : at every exit, for every right-hand side and every observer.
+  * Radau control model (`Proofs/RadauLemmas.lean`, tied by X-radau): `RadauCtl.newtonLoop_ode`, `RadauCtl.pass_ode` — every Newton
+    iteration started is counted with its three evaluations, abandoned or not.
 -/
+import IvpModel.Proofs.RadauLemmas
 import IvpModel.Proofs.CtlRk
 
 namespace Ctl
